@@ -410,7 +410,7 @@ def run(ctx, res):
                 "least two payload-carrying broker requests were issued; distinct by content hash. kernel: _normalize_hosts on generated forms.")
     run_corpus(ctx, res, ["c07-", "net-"], "c07", "C07")
     normhosts_cases(ctx, res, ctx.scale(400, 5000))
-    net_scenarios(ctx, res, ctx.scale(3000, 60000), "c07")
+    net_scenarios(ctx, res, ctx.scale(3000, 200000), "c07")
 
 
 def search(ctx, res, broken):
